@@ -2169,8 +2169,10 @@ VResult o_free_pool(const VCase &c) {
       hf += h.size();
     if (S.gets >= (uint64_t)S.size)
       cap = true;
-    if (S.R.failed)
+    if (S.R.failed) {
+      r.schedule_dependent = true; // observed on real, unsynchronised threads
       r.fail(fmt("repetition %d on real threads: ", rep) + S.R.msg);
+    }
   }
   r.label(fmt("threads=%d", (int)c.i("nth")));
   if (cap)
@@ -2193,8 +2195,10 @@ VResult o_free_tasks(const VCase &c) {
     ops += S.R.total_ops();
     handed += S.handed;
     contention += S.notask_nonempty + S.try_failed;
-    if (S.R.failed)
+    if (S.R.failed) {
+      r.schedule_dependent = true; // observed on real, unsynchronised threads
       r.fail(fmt("repetition %d on real threads: ", rep) + S.R.msg);
+    }
   }
   r.label(fmt("threads=%d", (int)c.i("nth")));
   if (handed)
